@@ -66,6 +66,7 @@ impl Dimensionality {
         for (_, power) in self.dims.iter_mut() {
             *power *= exp;
         }
+        self.dims.retain(|_, power| *power != 0);
         self
     }
 }
